@@ -282,3 +282,53 @@ Definition haar_seg (sg : list Q) (wt : option (list Q)) (q : Q) : haar_result :
   haar_result_of sg wt (haar_breakpoints_over haar_levels sg wt q).
 
 End HaarSeg.
+
+(* ---------- one_chrom / segment_haar: the table built from bin coordinates ---------- *)
+
+Definition znth (l : list Z) (i : Z) : Z := nth (Z.to_nat i) l 0.
+
+(* pd.DataFrame({"start": cnarr["start"].values.take(results["start"]),
+                 "end": cnarr["end"].values.take(results["end"]),
+                 "log2": results["mean"], "probes": results["size"]}) -- one row per segment:
+   (start coordinate of the segment's first bin, end coordinate of its last bin, mean, bin count) *)
+Fixpoint table_rows (starts ends : list Z) (st ed : list Z) (mn : list Q) (sz : list Z)
+    : list (Z * Z * Q * Z) :=
+  match st, ed, mn, sz with
+  | s :: st', e :: ed', m :: mn', z :: sz' =>
+      (znth starts s, znth ends e, m, z) :: table_rows starts ends st' ed' mn' sz'
+  | _, _, _, _ => []
+  end.
+
+(* `sg` is cnarr.smooth_log2() of the arm (an oracle: scipy's Savitzky-Golay filter) *)
+Definition one_chrom_table (starts ends : list Z) (r : haar_result) : list (Z * Z * Q * Z) :=
+  table_rows starts ends (hr_start r) (hr_end r) (hr_mean r) (hr_size r).
+
+(* segment_haar: pd.concat([one_chrom(arm) for arm in cnarr.by_arm()]) -- the arms' tables in order,
+   each row tagged with the arm's chromosome name *)
+Definition segment_haar_table {C} (arms : list (C * list (Z * Z * Q * Z))) : list (C * (Z * Z * Q * Z)) :=
+  concat (map (fun ct => map (fun row => (fst ct, row)) (snd ct)) arms).
+
+(* ---------- PulseConv (only used by haarSeg's rawI branch, which cnvkit never takes) ---------- *)
+
+(* for k in range(pulseSize // 2, signalSize + pulseSize // 2 - 1):
+     result[n] = result[n-1] + (signal[head] - signal[tail]) * pulseHeight   (mirrored head / tail) *)
+Fixpoint pulse_loop (sg : list Q) (n p : Z) (ph : Q) (rest : list Q) (k : Z) (prev : Q) : list Q :=
+  match rest with
+  | [] => []
+  | _ :: t =>
+      let cur := Qred (prev + (qnth sg (mirror_hi n k) - qnth sg (mirror_lo (k - p))) * ph) in
+      cur :: pulse_loop sg n p ph t (k + 1) cur
+  end.
+
+(* None = the code raises (pulseSize > signalSize: ValueError; pulseSize = 0: ZeroDivisionError) *)
+Definition pulse_conv (sg : list Q) (p : Z) : option (list Q) :=
+  let n := Zlength_nat sg in
+  if (n <? p) || (p <? 1) then None
+  else
+    match sg with
+    | [] => Some []
+    | _ :: rest =>
+        let ph := Qred (1 / inject_Z p) in
+        let r0 := Qred ((qsum (firstn (Z.to_nat ((p + 1) / 2)) sg) + qsum (firstn (Z.to_nat (p / 2)) sg)) * ph) in
+        Some (r0 :: pulse_loop sg n p ph rest (p / 2) r0)
+    end.
